@@ -195,6 +195,21 @@ func YAMLMutants(src string) []Mutant {
 		"default violation = []", "violation[x] { x := 1 }", "find = 1", "trace = 2", "nodes_array = 3", "path_rule = 4", "target_class[x] = y { x := 1; y := 2 }", "package other"} {
 		out = append(out, Mutant{Text: src + "\nrego_extensions: |\n  " + ext + "\n", Desc: "special: rego_extensions redefines " + ext})
 	}
+	// embedded Rego with n errors of one kind, n on both sides of the engine's error limit (10) and far beyond
+	for _, n := range []int{1, 9, 10, 11, 12, 40, 200} {
+		for _, kind := range []struct{ d, f string }{
+			{"unsafe variables", "c17_helper_%d(c17x) = c17y { c17y := c17x + c17_unbound_%d }"},
+			{"undefined functions", "c17_helper_%d(c17x) = c17y { c17y := c17_no_such_%d(c17x) }"},
+			{"type errors", "c17_helper_%d(c17x) = c17y { c17y := count(%d) }"},
+			{"conflicting rules", "c17_value_%d = %d\n  c17_value_0 = 1"},
+		} {
+			var b strings.Builder
+			for i := 0; i < n; i++ {
+				fmt.Fprintf(&b, "  "+kind.f+"\n", i, i)
+			}
+			out = append(out, Mutant{Text: src + "\nrego_extensions: |\n" + b.String(), Desc: fmt.Sprintf("special: rego_extensions with %d %s", n, kind.d)})
+		}
+	}
 	return out
 }
 
